@@ -6,6 +6,15 @@ CLAIMED = {
  "C01": ("exploration", "Hypothesis argument tuples per (class, table, call path) decoded by an independent standards model; complete single-bit walk of every CDB field", "4 C01",
          "Generated-input search over all 42 classes x defining tables x three call paths against hand-transcribed CDB layouts (length, opcode, service action, every field, defaults, stray bits), plus a deterministic walk of every bit of every field. Exploration: wide fields are sampled with boundary bias, not enumerated.",
          "stdspec/cdb.py (hand transcription of SPC-4/5, SBC-3, SMC-3, MMC-6, SAT-3 CDB tables); pbt/cmds.py argument-name map; buffer-sizing fields bounded to 2^26 bytes via ctor/facade"),
+ "C02": ("exploration", "Hypothesis round-trip (encode/decode both ways) + single-field metamorphic relation per class; neighbour-interference walk", "4 C02",
+         "Generated joint assignments to all fields of every class's CDB layout, generated masked byte strings, and single-field changes, through the library's own static encoder/decoder right after constructing an instance; deterministic walk of every field against all-ones neighbours. Exploration of the value space, complete over classes and fields.",
+         "ranges come from the class's own masks; the static codec is exercised in the one history it is defined for (C09 covers others)"),
+ "C03": ("exploration", "Hypothesis sizes/arguments; buffer lengths vs the transfer announced by the independently decoded CDB; both transports over auditing stand-in bindings", "4 C03",
+         "Generated block sizes, transfer/allocation lengths, ATA transfer-mode combinations and parameter dictionaries for every class; buffers compared with the rule the standard attaches to the decoded CDB, then executed through SCSIDevice and ISCSIDevice over stand-in bindings which audit direction and lengths.",
+         "stdspec/cdb.py; stand-ins for cython-sgio / cython-iscsi (DESIGN.md Appendix D); buffers bounded to 2^26 bytes"),
+ "C17": ("exploration", "Hypothesis invalid-request classes with expected-exception oracle, zero-execute audit and nearest-valid twin; 256 opcodes x 42 constructors enumerated", "4 C17",
+         "Five invalid-input classes crossed with generated otherwise-valid arguments, each with its nearest valid twin so that both 'refuses too little' and 'refuses too much' are visible; recording device proves nothing was sent.",
+         "errors identified by class name; unimplemented-but-listed EXTENDED COPY type codes are outside the property"),
  "C10": ("exploration", "Hypothesis layouts/values/orders vs big-integer reference codec + exhaustive narrow fields", "4 C10",
          "Generated-input search over layouts (any width/alignment/blob/order/prior content) against a big-integer reference codec, plus exhaustive enumeration of narrow fields; exploration, not proof: the wide-field space is sampled with boundary bias.",
          "reference codec in props/c10_codec.py; XOR contract (field bits zero before encoding)"),
